@@ -11,7 +11,7 @@ MCSeeds == {
   [L |-> L3, keep |-> FALSE, batch |-> << <<3, 1>>, <<5, 1>>, <<5, 1>>, <<7, 1>> >>, weighted |-> FALSE, dtype |-> "i8", den |-> 1, name |-> 2]
 }
 MCIds == 1..2
-MCOps == {"New", "Merge", "MergeRefused", "MergeFracRefused", "MergeMinFreq"}
+MCOps == {"New", "Merge", "MergeRefused", "MergeFracRefused", "MergeMinFreq", "SetFreqHalf"}
 MCSliceArgs == {<<1, NoneIx>>}
 MCTakeArgs == {<<0>>}
 MCScalars == {<<2, 1, "pyint">>}
